@@ -246,6 +246,18 @@ mod driver {
         Value::Object(out)
     }
 
+    pub fn misc(case: &Value) -> Value {
+        let mut e = IPDiversityEnforcer::new(config(case));
+        let empty = e.subnet_64_counts.len() == 0 && e.subnet_48_counts.len() == 0 && e.subnet_32_counts.len() == 0 && e.ipv4_32_counts.len() == 0
+            && e.ipv4_24_counts.len() == 0 && e.ipv4_16_counts.len() == 0 && e.asn_counts.len() == 0 && e.country_counts.len() == 0;
+        let size0 = e.get_network_size();
+        e.set_network_size(u(case, "network_size") as usize);
+        let u6 = e.analyze_unified(std::net::IpAddr::V6(Ipv6Addr::from(bytes::<16>(case, "ip6"))));
+        let u4 = e.analyze_unified(std::net::IpAddr::V4(Ipv4Addr::from(bytes::<4>(case, "ip4"))));
+        json!({"empty": empty, "size0": size0 as u64, "size2": e.get_network_size() as u64, "limit": e.get_per_ip_limit() as u64,
+               "is6": matches!(u6, Ok(UnifiedIPAnalysis::IPv6(_))), "is4": matches!(u4, Ok(UnifiedIPAnalysis::IPv4(_)))})
+    }
+
     pub fn analyze(case: &Value) -> Value {
         let e = IPDiversityEnforcer::new(IPDiversityConfig::default());
         let ip6 = Ipv6Addr::from(bytes::<16>(case, "ip6"));
@@ -279,6 +291,7 @@ fn verif_replay_entry() {
             let obs = match h.as_str() {
                 "add_remove" => driver::add_remove(&case),
                 "analyze" => driver::analyze(&case),
+                "misc" => driver::misc(&case),
                 other => panic!("unknown driver {other}"),
             };
             println!("VERIF-OBS {}", obs);
